@@ -488,7 +488,7 @@ impl Property for C08 {
         C08::case_strategy(tier)
     }
     fn budget(&self, tier: Tier) -> Budget {
-        Budget::new(tier.pick(6_000, 60_000), tier.pick(8, 16)).min_nontrivial(tier.pick(800, 10_000)).case_timeout(180)
+        Budget::new(tier.pick(4_000, 60_000), tier.pick(8, 16)).min_nontrivial(tier.pick(600, 10_000)).case_timeout(180)
     }
     fn rule(&self) -> String {
         "rows with 1-3 typed sort keys (small duplicate/NULL-heavy domains incl. NaN, ±0.0, ±inf, type boundaries), partitions, batch cuts, encodings; operator drawn from SortExec / TopK / SortPreservingMergeExec / PartialSortExec / PartitionedTopKExec / memory-limited external sort; \
